@@ -217,7 +217,9 @@ def run(c):
         for i, o in enumerate(engines):
             c.count()
             if o.get("panic"):
-                c.fail("oracle", "Run panics", input={"TruncateLen": o["L"]}, observed=o["panic"], expected="reports")
+                c.fail("oracle", "Run panics", input={"TruncateLen": o["L"], "file": o.get("version"), "first_match_site_without_a_report": {
+                    "call": repr(b64((o.get("whole") or {}).get("text"))), "rule": o.get("rule"), "at": o.get("at"), "report_template": o.get("msg_tpl"),
+                    "suggest_template": o.get("sugg_tpl")}}, observed=o["panic"], expected="reports")
                 continue
             inp = {"group": o["group"], "alternative": o["alt"], "report_template": o["msg_tpl"], "suggest_template": o["sugg_tpl"],
                    "at": o["at"], "TruncateLen": o["L"], "whole_match": repr(b64(o["whole"]["text"])), "node_ends_at_EOF": o["at_eof"],
@@ -340,6 +342,13 @@ def run(c):
                     c.fail("oracle", "comment-rule quick-fix text is not the Suggest template interpolated with the reporting rule's own submatches", input=inp,
                            expected=repr(o["w_sugg"]), observed=repr(o["o_sugg"]))
         if engines:
+            ok_e = [o for o in engines if not o.get("panic") and not o["missing"]]
+            n_at_whole = sum(1 for o in ok_e if o["at"] == "$$")
+            n_at_empty = sum(1 for o in ok_e if o["at"] and any(x["name"] == o["at"] and x.get("from", 0) < 0 for x in o["caps"]))
+            n_at_list = sum(1 for o in ok_e if o["at"] and any(x["name"] == o["at"] and x.get("from", 0) >= 0 and b", " in b64(x.get("text")) for x in o["caps"]))
+            c.coverage["at_whole_match"], c.coverage["at_list_that_matched_nothing"], c.coverage["at_list_of_several"] = n_at_whole, n_at_empty, n_at_list
+            c.obligation("coverage:%s: At(m[\"$$\"]), At() on a list capture that matched nothing and on one of several arguments are reached" % tag,
+                         n_at_whole >= 10 and n_at_empty >= 4 and n_at_list >= 1, "reached: %d / %d / %d" % (n_at_whole, n_at_empty, n_at_list))
             nsf = sum(1 for o in engines if o.get("rejected") and not o.get("panic") and not o["missing"])
             c.obligation("coverage:%s: syntax-rule reports behind rules that matched the same call and rejected it (>= 40)" % tag, nsf >= 40, "reached: %d" % nsf)
         if cfams:
